@@ -62,8 +62,9 @@ def main():
         mp = os.path.join(VERIF, "seeded", seed, "meta.json")
         meta = json.load(open(mp))
         runs = ", ".join(f"{c}({r.get('rc')})" for c, r in meta.get("checks_run", {}).items() if isinstance(r, dict))
-        lines.append(f"| {seed} | {meta.get('breaks', '')[:110]} | {runs or meta.get('status', '-')} | "
-                     f"{', '.join(meta.get('detected_by', [])) or '-'} |")
+        status = meta.get("status", "")
+        lines.append(f"| {seed} | {meta.get('breaks', '')[:110]} | {runs or '-'}{' — ' + status[:160] if status else ''} | "
+                     f"{', '.join(meta.get('detected_by', [])) or ('(not a valid seed any more)' if status else '-')} |")
     open(os.path.join(VERIF, "seeded", "RESULTS.md"), "w").write("\n".join(lines) + "\n")
 
 
